@@ -120,6 +120,21 @@ fn pairs() -> Vec<Pair> {
             op: Op::ChildRemove { parent: "p".into(), child: "c".into() } },
         Pair { refused: false, name: "roll_init/steady", setup: vec![],
             op: Op::RollInit { ca: "c".into() } },
+        // the same on an instance with more than "a handful" of CAs: the
+        // start-up code then does not queue a repository synchronisation for
+        // every CA, so a follow-up lost between the command and its
+        // scheduling is not rescued by a restart
+        Pair { refused: false, name: "roll_init/large_instance", setup: {
+                let mut v = vec![];
+                for i in 0..5 {
+                    v.push(Op::AddCa { ca: format!("x{i}"), parent: "ta".into(),
+                        asn: format!("AS651{i}0"), v4: format!("10.{}.0.0/16", 100 + i),
+                        v6: "".into() });
+                }
+                v.push(Op::Quiesce);
+                v
+            },
+            op: Op::RollInit { ca: "c".into() } },
         Pair { refused: false, name: "roll_activate/roll_new", setup: roll_new,
             op: Op::RollActivate { ca: "c".into() } },
         Pair { refused: false, name: "remove_parent/two_parents", setup: with_q,
@@ -602,15 +617,45 @@ fn listener_window(muts: &[Mutation], n: usize, strip: &str) -> Option<String> {
 fn pick_cuts(muts: &[Mutation], max: usize, rng: &mut Rng) -> Vec<usize> {
     let n = muts.len();
     if n <= max { return (0..n).collect() }
-    // distinct labels first, then fill randomly
-    let mut chosen: BTreeSet<usize> = BTreeSet::new();
+    // in the order in which they are checked (the time budget may end the
+    // list early):
+    let mut order: Vec<usize> = vec![];
+    let mut push = |order: &mut Vec<usize>, k: usize| {
+        if !order.contains(&k) { order.push(k) }
+    };
+    // first the instants right AFTER a command of an aggregate was stored
+    // (whatever the code does after committing - scheduling a follow-up,
+    // updating another store - has not happened yet), the latest commands of
+    // the operation first and one per kind of next mutation; at most half
+    // of the cuts
+    let mut seen_next = BTreeSet::new();
+    // ... those where the next thing is a task being queued come first
+    for pass in 0..2 {
+        for i in (1..n).rev() {
+            let prev = &muts[i - 1];
+            let queues_task = muts[i].op == "store"
+                && muts[i].place.contains("/tasks/pending");
+            if prev.op == "store" && prev.place.contains("/command-")
+                && (pass == 1 || queues_task)
+                && order.len() < max / 2
+                && seen_next.insert(muts[i].label(""))
+            {
+                push(&mut order, muts[i].n);
+            }
+        }
+    }
+    // then distinct labels, then fill randomly
     let mut seen = BTreeSet::new();
     for m in muts {
         let l = m.label("");
-        if seen.insert(l) && chosen.len() < max { chosen.insert(m.n); }
+        if seen.insert(l) && order.len() < max { push(&mut order, m.n); }
     }
-    while chosen.len() < max { chosen.insert(rng.below(n as u64) as usize); }
-    chosen.into_iter().collect()
+    let mut guard = 0;
+    while order.len() < max && guard < 1000 {
+        guard += 1;
+        push(&mut order, rng.below(n as u64) as usize);
+    }
+    order
 }
 
 fn run_pair(r: &mut Report, args: &Args, pair: &Pair, rng: &mut Rng) {
@@ -663,7 +708,7 @@ fn run_pair(r: &mut Report, args: &Args, pair: &Pair, rng: &mut Rng) {
     let v_pre = versions(&w);
 
     // ---- twin (fault-free) run, recording every mutation ----------------
-    let max_cuts = if args.thorough() { 400 } else { 6 };
+    let max_cuts = if args.thorough() { 400 } else { 8 };
     hooks::begin(Some(SnapCfg {
         srcs: vec![(data.clone(), "data".into()), (repo.clone(), "repo".into())],
         dst: cuts.clone(), max_cuts: 400,
